@@ -46,6 +46,8 @@ def main(tier, seed):
                     fs = rng.choice([[10] * 9 + [5], [16] * 8, [16] * 8 + [1, 1], [10] * 10, [10] * 9 + [9], [64] * 7, [10] * 9 + [4]])
                     p = [push(f) for f in fs] + [(2, len(fs), rng.choice([1, 2]), None)] + p[:3]
                 content = render_prog(p, rng.choice([" ", "\n"])).encode("utf-8")
+                mix = random.Random(seed * 1000003 + k)      # own stream: the main one stays as it was
+                if mix.random() < 0.3: content = render_mixed(p, mix).encode("utf-8")
             elif r < 0.65:
                 # near-syntax texts: short strings over one representative of every character class (orphan start
                 # syllables, end syllables without start, hearts/operators in odd places)
@@ -79,6 +81,14 @@ def main(tier, seed):
             stdin = b"" if s < 0.3 else (rand_stdin(rng).encode("utf-8") if s < 0.7 else rand_bytes(rng, 0.2))
             mode = "check" if rng.random() < (0.5 if 0.45 <= r < 0.65 else 0.2) else "run"
             lvl = rng.choice([0, 1, 2])
+            mixs = random.Random(seed * 1000003 + k + 7)     # own stream: the main one stays as it was
+            if name == "f%d.hyeong" % k and mixs.random() < 0.06:
+                # a program that reads a line which stops being UTF-8 after a LONG prefix of multi-byte characters (a diagnostic
+                # quoting or measuring the valid part by bytes: seeded change C13-input-diagnostic-slices-mid-character)
+                pre = "".join(mixs.choice(["\uac00", "\U0001F495", "\u00e9", "a", "\u20ac", "b"]) for _ in range(mixs.randint(4, 16)))
+                stdin = (b"fine\n" if mixs.random() < 0.3 else b"") + pre.encode("utf-8") + mixs.choice([b"\xff", b"\xc3", b"\x80", b"\xed\xa0\x80", b"\xf0\x9f", b"\xe2\x82"]) + mixs.choice([b"\n", b"", b"z\n", b"\nok\n"])
+                content = render_prog([(5, 1, 0, None)] + [(1, 1, 1, None)] * mixs.randint(1, 8)).encode("utf-8")
+                open(path, "wb").write(content); mode = "run"
             argv = ["check", path] if mode == "check" else ["run", "-O%d" % lvl, path]
             jobs.append((argv, stdin)); meta.append((mode, lvl, path, name, content, stdin))
         # areas nested deeper than the native stack carries (known finding KF-C13-1: recursion over the area tree in Drop/Display/Clone/calc);
